@@ -37,6 +37,8 @@ def jobs(tier):
         add(k=1, L=2, fast=False, table=False, vt=2, max_steps=3)
         add(k=1, L=2, fast=True, table=False, vt=3, max_steps=3)
         add(k=1, L=2, fast=False, table=False, vt=0, max_steps=4, real_arith=True)
+        add(k=1, L=0, fast=False, table=False, vt=2, max_steps=2, real_arith=True)
+        add(k=1, L=1, fast=False, table=False, vt=0, max_steps=3, real_arith=True)
         add(k=2, L=2, fast=False, table=False, vt=0, max_steps=3)
         add(k=2, L=3, fast=True, table=False, vt=0, max_steps=3)
         for g_, fast in (("complete-1", False), ("complete-1", True), ("MIXED1", False), ("GC2", True)):
